@@ -188,6 +188,26 @@ int main(int argc, char** argv) {
     if (hc_is(0, "nofail")) { nofail = 1; continue; }
     if (hc_is(0, "mapget")) { mapget = 1; continue; }
     if (hc_is(0, "getwhile")) { getwhile = 1; continue; }        /* in-contract observations only (C18: unchecked builds) */
+    if (hc_is(0, "longview")) {
+      /* longview <a> <b> <kind> : slices of a Range of N = a * 2^20 + b items (N beyond 2^31): the last items, addressed from the
+         front, from the end, with a stop beyond the end, and the length of the reversed view; items are logged relative to N */
+      int64_t N = hc_int(1) * (1LL << 20) + hc_int(2); const char* kind = hc_w[3];
+      volatile long long ln = -1; static long long fw[64], bw[64]; volatile size_t nf = 0, nb = 0;
+      HC_TRY(
+        var r = new(Range, $I(N));
+        var v = !strcmp(kind, "tail4") ? (var)new(Slice, r, $I(N - 4), _) : !strcmp(kind, "neg3") ? (var)new(Slice, r, $I(-3), _)
+              : !strcmp(kind, "clamp") ? (var)new(Slice, r, $I(N - 2), $I(N + 9)) : !strcmp(kind, "step2") ? (var)new(Slice, r, $I(N - 5), _, $I(2))
+              : (var)new(Slice, r, _, _, $I(-1));
+        ln = (long long)len(v);
+        if (strcmp(kind, "rev") != 0) {
+          foreach (x in v) { if (nf >= 60) break; fw[nf] = c_int(x) - N; nf++; }
+          for (var x = iter_last(v); x != Terminal && nb < 60; x = iter_prev(v, x)) { bw[nb] = c_int(x) - N; nb++; }
+        } else { var x = iter_init(v); if (x != Terminal) { fw[0] = c_int(x) - N; nf = 1; } }
+      );
+      ev_begin("longview"); ev_str("kind", kind); ev_int("lenhi", ln >> 20); ev_int("lenlo", ln & ((1 << 20) - 1)); ev_int("a", hc_int(1)); ev_int("b", hc_int(2));
+      ev_ints("fwd", fw, nf); ev_ints("bwd", bw, nb); ev_str("exc", hc_exc); ev_int("line", cur_line); ev_end();
+      continue;
+    }
     if (!hc_is(0, "view")) { fprintf(stderr, "unknown op %s\n", hc_w[0]); return 9; }
     ev_begin("view");
     ev_key("expr");
